@@ -824,6 +824,170 @@ def _fix_arr_shown(case):
     return case
 
 
+
+# ------------------------------------------------------------------ END TO END (lean/Proofs/EndToEnd.lean): posted pairs -> from_flat
+
+def _e2e_has_joined(t):
+    if t["t"] == "array":
+        return t.get("flavour") == "joined"
+    kids = t.get("fields", []) + (t.get("members", []) if t["t"] == "list" else []) + ([t["template"]] if t.get("template") else [])
+    return any(_e2e_has_joined(k) for k in kids)
+
+
+def _e2e_has_seq(t):
+    return t["t"] in ("list", "array") or any(_e2e_has_seq(k) for k in t.get("fields", []))
+
+
+def _e2e_schema(t, kinds):
+    """the tree description as a schema of the flat model (Flatland/Flat.lean), the same way schema_of builds the real one;
+    kinds: list of real scalar classes, a leaf's k is its index"""
+    import flatland as fl
+
+    def kind(key, cls):
+        for i, (k, _) in enumerate(kinds):
+            if k == key:
+                return i
+        kinds.append((key, cls))
+        return len(kinds) - 1
+    k = t["t"]
+    if k == "leaf":
+        if t.get("py") == "int":
+            return {"t": "leaf", "name": t["name"], "k": kind(("int",), fl.Integer)}
+        return {"t": "leaf", "name": t["name"], "k": kind(("str", False), fl.String.using(strip=False))}
+    if k == "bool":
+        return {"t": "leaf", "name": t["name"], "k": kind(("bool", t["true"]), fl.Boolean.using(true=t["true"]))}
+    if k == "array":
+        member = {"t": "leaf", "name": None, "k": kind(("str", bool(t["strip"])), fl.String.using(strip=t["strip"]))}
+        return {"t": "array", "name": t["name"], "prune": bool(fl.Array.prune_empty), "member": member}
+    if k == "dict":
+        return {"t": "dict", "name": t["name"], "mode": "dense", "fields": [_e2e_schema(f, kinds) for f in t["fields"]]}
+    member = t.get("template") or (t["members"][0] if t["members"] else {"t": "leaf", "name": None, "py": "str", "u": ""})
+    return {"t": "list", "name": t["name"], "prune": bool(fl.List.prune_empty), "max": int(fl.List.maximum_set_flat_members),
+            "member": _e2e_schema(member, kinds)}
+
+
+def _e2e_texts(t, acc):
+    if t["t"] in ("leaf", "bool"):
+        acc.append(t["u"])
+        if t["t"] == "bool":
+            acc.append(t["true"])
+    elif t["t"] == "array":
+        acc.extend((m if m is not None else "") for m in t["members"])
+    for kid in t.get("fields", []) + (t.get("members", []) if t["t"] == "list" else []):
+        _e2e_texts(kid, acc)
+
+
+def _e2e_posted(case, results):
+    """what a browser submits: every successful form control in document order; ONE activated submitter, the first"""
+    out, seen_sub = [], False
+    for r, res in zip(case["renders"], results):
+        if res["err"] or res["parsed"] is None:
+            continue
+        sub = bool(res.get("submitter"))
+        if res["posted"] is not None and r.get("form") and (not sub or not seen_sub):
+            out.append(tuple(res["posted"]))
+        seen_sub = seen_sub or sub
+    return out
+
+
+def _e2e_model(case, root, posted):
+    """schema / state / scalar tables of the flat model for a form-mode case, read off the REAL element and the real scalar
+    classes in isolation; None outside the composed model (a JoinedString needs C18's member tables)"""
+    import sys
+    from harness import flatlib
+    if not case.get("form_mode") or _e2e_has_joined(case["tree"]):
+        return None
+    kinds = []
+    sj = _e2e_schema(case["tree"], kinds)
+    texts = [""]
+    _e2e_texts(case["tree"], texts)
+    texts.extend(v for _, v in posted)
+    texts.extend(v for _, v in root.flatten())
+    norm = []
+    for k, (_, cls) in enumerate(kinds):
+        for tx in dict.fromkeys(texts):
+            el = cls()
+            el.set(tx)
+            norm.append([k, tx, el.u])
+    env = {"norm": norm, "compose": [], "jm": [], "nd": flatlib.nd_table(), "maxdigits": sys.get_int_max_str_digits()}
+    return {"schema": sj, "env": env, "elem": flatlib.extract(root, sj)}
+
+
+def _e2e_hyps(case, m):
+    """Python transcription of the non-widget hypotheses of end_to_end_partial (Flatland/Spec/EndToEnd.lean `hyps` without
+    formOk / oneSubmitter, which form_ok reads off the renders); compared with the Lean runner's evaluation key by key"""
+    from harness import flatlib
+    sj, ej, env = m["schema"], m["elem"], m["env"]
+    norm = dict(((k, t), u) for k, t, u in env["norm"])
+    tree = case["tree"]
+
+    def names(s):
+        return [x["name"] for x in flatlib.walk_schema(s) if x["name"] is not None]
+
+    def wf(s):
+        if s["t"] == "dict":
+            ns = [f["name"] for f in s["fields"]]
+            return all(n is not None for n in ns) and len(set(ns)) == len(ns) and all(wf(f) for f in s["fields"])
+        return wf(s["member"]) if s["t"] in ("list", "array") else True
+
+    def ok(s, e):
+        if s["t"] == "leaf":
+            return "leaf" in e and norm.get((s["k"], e["leaf"])) == e["leaf"]
+        if s["t"] == "array":
+            return "array" in e and all(ok(s["member"], x) for x in e["array"])
+        if s["t"] == "list":
+            return "list" in e and len(e["list"]) <= s["max"] and all(ok(s["member"], x) for x in e["list"])
+        fields = dict((f["name"], f) for f in s["fields"])
+        keys = [k for k, _ in e["dict"]]
+        return len(set(keys)) == len(keys) and all(k in fields and ok(fields[k], x) for k, x in e["dict"])
+
+    def bools(t):
+        if t["t"] == "bool":
+            yield t
+        for kid in t.get("fields", []) + (t.get("members", []) if t["t"] == "list" else []):
+            yield from bools(kid)
+
+    def arrays_single(s, e):
+        """no key twice, read on the state: an Array / MultiValue contributes one pair per member that survives its prune"""
+        if s["t"] == "array":
+            return len([x for x in e["array"] if not (s["prune"] and x["leaf"] == "")]) <= 1
+        if s["t"] == "list":
+            return all(arrays_single(s["member"], x) for x in e["list"])
+        if s["t"] == "dict":
+            fields = dict((f["name"], f) for f in s["fields"])
+            return all(arrays_single(fields[k], x) for k, x in e["dict"])
+        return True
+
+    def drop_safe(s):
+        if s["t"] == "leaf":
+            return norm.get((s["k"], "")) == ""
+        if s["t"] == "dict":
+            return s["mode"] == "dense" and all(drop_safe(f) for f in s["fields"])
+        return s["t"] == "list" and s["prune"]
+
+    canonical = all(b["u"] in (b["true"], "") for b in bools(tree))
+    unchecked = [b for b in bools(tree) if b["u"] != b["true"]]
+    c01 = wf(sj) and ok(sj, ej) and env["nd"][:1] == [48] and all(n != "" and "_" not in n for n in names(sj))
+    hn = arrays_single(sj, ej)
+    ds = (not unchecked) or drop_safe(sj)
+    return {"linked": True, "c01_hyps": bool(c01), "hnodup": bool(hn), "drop_safe": bool(ds),
+            "hyps_flat": bool(canonical and c01 and hn and ds)}
+
+
+def _e2e_obs(case, root, results):
+    from harness import flatlib
+    if any(res["err"] or res["parsed"] is None for res in results):
+        return None, None
+    posted = _e2e_posted(case, results)
+    m = _e2e_model(case, root, posted)
+    if m is None:
+        return None, None
+    rebuilt = type(root).from_flat(posted)
+    obs = {"posted": [[k, v] for k, v in posted], "rebuilt": flatlib.extract(rebuilt, m["schema"])}
+    obs.update(_e2e_hyps(case, m))
+    return obs, m
+
+
 class C12(Property):
     id = "C12"
     title = "a rendered form, submitted unchanged, posts the element's own flat pairs"
@@ -888,7 +1052,21 @@ class C12(Property):
         "Flatland.C12.Proofs.rejected_prehistory_form_roundtrip",
         "Flatland.C12.Proofs.exRejected_rejected",
         "Flatland.C12.Proofs.exForm_posts_after_rejected",
+        # END TO END, C12 o C02 o C01 (Proofs/EndToEnd*.lean, h14)
+        "Flatland.EndToEnd.Proofs.drop_setFlat",
+        "Flatland.EndToEnd.Proofs.fromFlat_formPairs",
+        "Flatland.EndToEnd.Proofs.end_to_end_at",
+        "Flatland.EndToEnd.Proofs.end_to_end_partial",
+        "Flatland.EndToEnd.Proofs.end_to_end_total",
+        "Flatland.EndToEnd.Proofs.end_to_end_generator",
+        "Flatland.EndToEnd.Proofs.end_to_end_exact",
+        "Flatland.EndToEnd.Proofs.end_to_end_full_fails",
+        "Flatland.EndToEnd.Proofs.exT_hyps",
+        "Flatland.EndToEnd.Proofs.exT_end_to_end",
+        "Flatland.EndToEnd.Proofs.exNonPruning_differs",
+        "Flatland.EndToEnd.Proofs.exCustom_differs",
     ]
+    extra_proof_modules = ["Proofs.EndToEndExamples"]
     generated_obligations = []
     level_text = "proof"
     level_note = ("partial.  PROVED (model of the transforms + browser rule): text-like input / button / textarea carry (flat name, u) "
@@ -1192,7 +1370,13 @@ class C12(Property):
                                    "posted": [mc.safe(posted[0]), mc.safe(posted[1])] if posted else None,
                                    "submitter": bool(res.get("submitter")),
                                    "id": mc.safe(res.get("id")), "for": mc.safe(res.get("for"))})
+        obs["e2e"], obs["_e2e_model"] = _e2e_obs(case, root, results) if case.get("form_mode") else (None, None)
         return obs
+
+    def model_input(self, case, obs):
+        # END TO END: the flat-model schema / state / scalar tables read off the real element (h14)
+        m = (obs or {}).get("_e2e_model")
+        return dict(case, e2e=m) if m is not None else case
 
     # ------------------------------------------------------------------ oracle
     def oracle(self, case):
@@ -1334,7 +1518,38 @@ class C12(Property):
             if got != want:
                 fails.append({"clause": "form-roundtrip", "expected": [list(p) for p in want], "observed": [list(p) for p in got],
                               "posted": [list(p) for p in posted_pairs]})
+            fails.extend(self._oracle_e2e(case, root, results))
         return fails
+
+    def _oracle_e2e(self, case, root, results):
+        """END TO END on the real code (h14): the posted pairs, read back with from_flat, rebuild the element TREE that
+        from_flat(flatten()) rebuilds (the documented pruning); with nothing prunable, the element's own tree"""
+        from harness import flatlib
+        e2e, m = _e2e_obs(case, root, results)
+        if e2e is None:
+            return []
+        cls = type(root)
+        posted = _e2e_posted(case, results)
+        flat = root.flatten()
+        via_flat = cls.from_flat(flat)
+        want = flatlib.extract(via_flat, m["schema"])
+        out = []
+        if via_flat.flatten() == flat and flatlib.extract(root, m["schema"]) != want and e2e["c01_hyps"]:
+            return out      # C01's business: the tree changes although the flat output does not
+        if e2e["rebuilt"] != want or cls.from_flat(posted).flatten() != via_flat.flatten():
+            out.append({"clause": "posted-from-flat-rebuilds", "expected": want, "observed": e2e["rebuilt"],
+                        "posted": [list(p) for p in posted], "flatten": [list(p) for p in flat]})
+        elif via_flat.flatten() == flat and e2e["rebuilt"] != flatlib.extract(root, m["schema"]):
+            out.append({"clause": "posted-from-flat-rebuilds", "expected": flatlib.extract(root, m["schema"]),
+                        "observed": e2e["rebuilt"], "posted": [list(p) for p in posted], "detail": "nothing prunable"})
+        elif not _e2e_has_seq(case["tree"]) and cls.from_flat(posted).flatten() != flat:
+            # decided from the tree description, not from what the library makes of it: without List / Array /
+            # MultiValue there is nothing the documentation allows to be pruned -- the flat output comes back as it is
+            # (an unchecked box comes back as the pair (key, '') it was)
+            out.append({"clause": "posted-from-flat-rebuilds", "expected": [list(p) for p in flat],
+                        "observed": [list(p) for p in cls.from_flat(posted).flatten()], "posted": [list(p) for p in posted],
+                        "detail": "no sequence in the tree: original.flatten()"})
+        return out
 
     def classify(self, case, failure):
         for fn in (self._classify_a, self._classify_option_text, self._classify_d, self._classify_f):
@@ -1586,6 +1801,13 @@ class C12(Property):
                 ok, why = False, "form_ok crashed: %s" % type(e).__name__
             t.append("formOk" if ok else "formOk=false:%s" % why)
             t.append("form-leaves=%d" % min(len(list(leaves(case["tree"]))), 8))
+            e2e = obs.get("e2e")
+            if e2e is None:
+                t.append("e2e=outside-model")
+            else:
+                t.append("e2e-theorem-applies" if (ok and e2e["hyps_flat"]) else "e2e-theorem-applies=false:%s" % (
+                    "formOk" if not ok else "c01" if not e2e["c01_hyps"] else "hnodup(array)" if not e2e["hnodup"]
+                    else "dropSafe" if not e2e["drop_safe"] else "boolsCanonical"))
             nsub = sum(1 for r, o in zip(case["renders"], obs["renders"])
                        if r["tag"] == "button" or (r["tag"] == "input" and ascii_lower(str(self._type_of(r) or "")) == "submit"))
             t.append("form-submitters=%s" % (nsub if nsub < 2 else "2+"))
@@ -1651,5 +1873,18 @@ class C12(Property):
             c["markup"] = "xhtml"
             yield c
 
+
+# END TO END (h14): C12 o C02 o C01, see NOTES-h14.md
+C12.level_note += (
+    "  END TO END (Proofs/EndToEnd.lean): end_to_end_partial / _total / _generator -- for a form tree t that renders the state e of "
+    "schema s (embed t = resolve s e) under the decidable hypotheses Flatland.EndToEnd.hyps (formOk, oneSubmitter, boolsCanonical; "
+    "wfS, rootOK, okSB, envOKB, namesSafe; hnodupB = C02's hereditary no-key-twice on the element's own pairs; dropSafe when a box "
+    "is unchecked), from_flat of what the browser posts is prS e (C01's documented pruning); EndToEnd_Full is refuted "
+    "(end_to_end_full_fails: unchecked Boolean in a SparseDict).  Tie: the real posted pairs go through the real from_flat and the "
+    "rebuilt tree is compared with the model's fromFlat of the model's posted pairs; the hypotheses are evaluated on both sides "
+    "and compared; where they hold the runner checks rebuilt = prS e (spec_agrees).  Oracle clause posted-from-flat-rebuilds.  "
+    "Arrays / MultiValues with two or more members (no order-free composition) and JoinedStrings: oracle only.")
+C12.rule += ("  Form-mode cases without a JoinedString also carry the END TO END observation (tag e2e-theorem-applies: "
+             "about 69 % of form-mode cases meet every hypothesis of end_to_end_partial).")
 
 PROP = C12()
